@@ -558,6 +558,11 @@ def call_method(h: Any, recv: AV, name: str, args: List[AV], kwargs: Dict[str, A
                         out.append(IntV(Lin.var(ch.cp_var)))
                     return i.new_list(out)
             return Source("bytes", recv, id=ctx.new_id(), depth=i.loop_depth)
+        if name in ("count", "rfind", "find", "index", "rindex") and isinstance(recv, SymStr):
+            lo = 0 if name == "count" else -1
+            v = i.new_int(f"{recv.label}.{name}({', '.join(repr(getattr(a, 'value', a)) for a in args)})", lo)
+            h.int_origin[v.lin.vars()[0]] = (recv, name, tuple(args))
+            return v
         return Term("strmeth", (recv, name, tuple(args)), ctx.new_id())
     # ---------------- document values
     if isinstance(recv, Sym):
